@@ -148,6 +148,26 @@ def run(rep, tier, rng):
             nfail += 1
             if nfail == 1:
                 rep.violation({"kind": "oracle", "what": msg, "case_kind": "alloc", "case": c[:4000], "label": label})
+    # ---- the complete reader's bulk read: the row count announced by the .dbf header must not size anything either
+    pcases = [[15, n, ann, idx] for n in (1, 5, 40) for ann in (n, 1 << 20, (1 << 31) - 1, (1 << 32) - 1) for idx in (0, 1)]
+    for c, r in zip(pcases, sfv.run_impl(dev, pcases)):
+        rep.count_case((c, r))
+        if len(r) != 4:
+            msg = "harness died or rejected the complete-reader case %r" % (c,)
+        else:
+            peak, largest, status, nbytes = r
+            bound = 64 * nbytes + SLACK
+            msg = None
+            if status == 2:
+                msg = "panic in Reader::read (%d pairs, .dbf header announcing %d rows)" % (c[1], c[2])
+            elif peak > bound or largest > bound:
+                msg = ("%d bytes of input (%d pairs, .dbf header announcing %d rows, %s index) made Reader::read request %d bytes "
+                       "at peak (largest single request %d), allowed %d" % (nbytes, c[1], c[2], "with" if c[3] else "without", peak, largest, bound))
+        if msg:
+            nfail += 1
+            if nfail == 1:
+                rep.violation({"kind": "oracle", "what": msg, "case_kind": "alloc", "case": c})
+    rep.cov["complete_reader_bulk_reads"] = len(pcases)
     rep.cov["worst_peak_to_input_ratio_for_inputs_above_400_bytes"] = {"ratio": worst[0], "input": worst[1]}
     rep.sample({"label": inputs[5][0], "input_bytes": len(inputs[5][1])})
     rep.cov["oracle"] = {"checked": len(cases), "failing": nfail}
